@@ -35,6 +35,10 @@ SEMANTIC = (
     "unreachable",
     "index out of bounds",
     "possible truncation",
+    "unable to prove post-condition of closure",
+    "unable to prove pre-condition of closure",
+    "unable to prove postcondition of closure",
+    "unable to prove precondition of closure",
 )
 
 
